@@ -93,10 +93,11 @@ def run_ne_step(inst):
     from symx.matchlib import Cfg, make_matcher
     _, gname, g, fam = inst[:4]
     budget = inst[4] if len(inst) > 4 else None
+    md = inst[5] if len(inst) > 5 else None      # a finite maximum distance (None: no cut-off)
     cfg = Cfg(fam=fam, T=2, ne=True, goingback=False, sym_maxdist=False, sym_init=False, sym_minprob=False)
     AbsMap, TableMap = make_absmap_class(), make_tablemap_class()
     shims.install()
-    name = f"ne-step {gname} {fam}"
+    name = f"ne-step {gname} {fam}" + (f" max_dist={md}" if md else "")
     edges_only = fam != 'simple_n'
     states = [(u, v) for u in g for v in g[u] if u != v] if edges_only else list(g)
 
@@ -140,6 +141,8 @@ def run_ne_step(inst):
         eng = E.get_engine()
         mp = AbsMap(g)
         mt = make_matcher(eng, mp, cfg)
+        if md:
+            mt.max_dist = md
         present, scores = {}, {}
         for t in (0, 1):
             for st in states:
@@ -160,6 +163,7 @@ def run_ne_step(inst):
             key = (st[0], st[1], 1, 0) if isinstance(st, tuple) else (st, 1, 0)
             same = col.get(key) is m and not m.stop
             out.append((f'entry_{st}_still_filed_and_live', bool(same)))
+            out.append((f'entry_{st}_not_postponed_by_the_non_emitting_search', bool(m.delayed <= mt.expand_now)))
             if z:
                 out.append((f'entry_{st}_not_less_probable_than_before', E.lift(m.logprob) >= E.lift(sc) - TOL))
             else:
@@ -173,6 +177,8 @@ def run_ne_step(inst):
         with shims.concrete():
             mp = TableMap(g, table, default=0.0)
             mt = make_matcher(None, mp, cfg)
+            if md:
+                mt.max_dist = md
             before = build(mt, mp, pres, sc, False)
             mt._match_non_emitting_states(0)
             bad = [n for n, ok in judge(mt, before, False) if not ok]
@@ -225,6 +231,7 @@ def main(tier):
     budget = 60 if tier == 'quick' else 900
     from symx.common import run_instances
     steps = [('ne_step', gn, NAMED[gn], fam, 60 if tier == 'quick' else 600) for gn in ('oneway3', 'oneway4', 'tri') for fam in ('simple', 'dist', 'simple_n')]
+    steps += [('ne_step', gn, NAMED[gn], fam, 60 if tier == 'quick' else 600, 3.0) for gn, fam in (('oneway3', 'simple'), ('oneway3', 'simple_n'), ('tri', 'simple'))]
     res = list(run_instances(run_instance, steps)) + gabs.run_all(rep, run_instance, instances(tier), budget, 16 * (100 if tier == 'quick' else 900))
     rep.bounds = dict(graphs="oneway3, oneway4, tri, line2, k3 (node states)" if tier == 'quick' else "all digraphs <=3 nodes, fork, oneway4, path4",
                       T="2..3", config="avoid_goingback=False, no width; max_dist or min_prob_norm symbolic; obs_noise_ne in {default, 0.5, 2.0}")
